@@ -15,7 +15,8 @@ def load_program(mir_dir, crates):
     global _PROGRAM
     P = Program()
     for c in crates:
-        P.load_crate(c, os.path.join(mir_dir, f"mir_{c}.txt"), os.path.join(mir_dir, f"exp_{c}.rs"))
+        P.load_crate(c, os.path.join(mir_dir, f"mir_{c}.txt"), os.path.join(mir_dir, f"exp_{c}.rs"),
+                     os.path.join(mir_dir, f"smir_{c}.txt"))
     _PROGRAM = P
     return P
 
